@@ -36,6 +36,7 @@ FIXMAP = {
  'merge result series that share a label set': ['C19', 'C01'],
  'copy the points of a remote result': ['C12'],
  'scalar() declares the series': ['C18'],
+ 'synchronise the cancel function': ['C14', 'C12'],
  'operators which drop the metric name merge series': ['C01', 'C05', 'C06'],
  'timestamp() returns the timestamps': ['C06', 'C01'],
  'match vector-vector operands per step': ['C05', 'C01', 'C19'],
